@@ -19,7 +19,7 @@ CLAIM = {
  'design_ref': 'DESIGN.md section 6 C13',
 }
 
-RULE = ('files: random abstract content (1..4 passes, plus files of 5..30 and 100+ pairwise different passes incl. exactly 10/11/12/20/21/101 compared POSITIONALLY (i-th frame array returned == i-th pass written, ident == str(i)), 9/10/11/19/20 channels, 100..1200 one-frame blocks, ~10000 frames, 1..20 distinct channel names, 0..~2500 frames, block size 1..64 '
+RULE = ('files: random abstract content (1..4 passes, plus files of 5..30 and 100+ pairwise different passes incl. exactly 10/11/12/20/21/101 compared POSITIONALLY (i-th frame array returned == i-th pass written, ident == str(i)), 9/10/11/19/20 channels, 100..1200 one-frame blocks, ~10000 frames, data blocks of every special byte length (276 = header block, 12/24 = TIF markers, header field offsets, 640) as regular, only and short last block, 1..20 distinct channel names, 0..~2500 frames, block size 1..64 '
         'frames incl. short last block and block size > frame count, IBM words from a mix of realistic values, zeros, '
         'negative zero, extreme exponents, unnormalised and random words, up and down logs, header spacing of either sign) encoded by the Lean spec '
         'encoder, decoded by the model and by ReadBIT; a file is non-trivial when it has >= 2 frames and >= 1 non-zero '
@@ -283,6 +283,65 @@ def case_of(passes, data, variant='full'):
                         'n': p['n'], 'fib': p['fib'], 'chans': [b''.join(c).hex() for c in p['chans']]} for p in passes]}
 
 
+# ------------------------------------------------------------------ data blocks of "magic" byte lengths
+
+#: byte lengths the reader knows as literals or as offsets of the 276-byte header block (ReadBIT.py): TIF marker 12 (and
+#: 2 markers 24), float 4, header 276 (0x114) and its field boundaries 4/76/81/156/164/166/168/248/268, the 160-byte
+#: description, the 80-byte name table, the docstring's 640-byte (0x280) block; plus neighbours of 276
+MAGIC_BLOCK_LENGTHS = [4, 8, 12, 24, 72, 76, 80, 156, 160, 164, 168, 248, 268, 272, 276, 280, 288, 552, 640]
+
+
+def magic_shapes(length):
+    """(channels, frames in block) with 4 * channels * frames == length, channels <= 20"""
+    w = length // 4
+    return [(c, w // c) for c in range(1, 21) if length % 4 == 0 and w % c == 0]
+
+
+def pass_with_block(rng, nch, nf, mode):
+    """a pass whose data blocks hit 4*nch*nf bytes: mode 'regular' (every block), 'last' (only the short last block),
+    'only' (a single block), 'first_then_short' (regular blocks of that size, shorter last one)"""
+    if mode == 'regular':
+        fib, n = nf, nf * rng.randint(2, 3)
+    elif mode == 'only':
+        fib, n = nf + rng.randint(0, 3), nf
+    elif mode == 'last':
+        fib = nf + rng.randint(1, 12); n = fib * rng.randint(1, 2) + nf
+    else:
+        fib = nf; n = nf * rng.randint(1, 2) + rng.randint(1, max(1, nf - 1)) if nf > 1 else nf * 2
+    p = gen_pass(rng, 'tiny')
+    p['names'] = gen_names(rng, nch); p['filler'] = b' ' * (4 * (20 - nch)); p['n'] = n; p['fib'] = fib
+    p['chans'] = [[gen_word(rng) for _ in range(n)] for _ in range(nch)]
+    return p
+
+
+def magic_block_cases(rng, extra_random=0):
+    """deterministic list of files (every magic length, as regular / only / short-last block, two channel shapes each,
+    the 276-byte ones in every shape) followed by `extra_random` random picks"""
+    cases = []
+    for length in MAGIC_BLOCK_LENGTHS:
+        shapes = magic_shapes(length)
+        if not shapes:
+            continue
+        pick = shapes if length == 276 else [shapes[0], shapes[-1]] if len(shapes) > 1 else shapes
+        for nch, nf in pick:
+            for mode in ('regular', 'only', 'last', 'first_then_short'):
+                ps = [pass_with_block(rng, nch, nf, mode)]
+                if rng.random() < 0.5:
+                    ps.append(gen_pass(rng, 'tiny'))       # a following pass: a spurious extra pass shifts it
+                cases.append(ps)
+    # the coordinator's example: 3 channels, 32 frames per block, 87 frames -> short last block of 23 frames = 276 bytes
+    p = pass_with_block(rng, 3, 23, 'last'); p['fib'] = 32; p['n'] = 87
+    p['chans'] = [[gen_word(rng) for _ in range(87)] for _ in range(3)]
+    cases.append([p, gen_pass(rng, 'tiny')])
+    for _ in range(extra_random):
+        length = rng.choice(MAGIC_BLOCK_LENGTHS + [276, 276, 12, 24])
+        shapes = magic_shapes(length)
+        nch, nf = rng.choice(shapes)
+        cases.append([pass_with_block(rng, nch, nf, rng.choice(['regular', 'only', 'last', 'first_then_short']))
+                      for _ in range(rng.choice([1, 1, 2]))])
+    return cases
+
+
 # ------------------------------------------------------------------ python layout (malformed stream + cross-check)
 
 def header_bytes(p, count=None):
@@ -472,6 +531,11 @@ def stream_files(ctx, R):
             p['names'] = [n_.encode() for n_ in REAL_NAMES[:10]]; p['filler'] = b' ' * 40; p['fib'] = 16; p['n'] = n
             p['chans'] = [[gen_word(rng) for _ in range(n)] for _ in range(10)]
         cases.append(ps)
+    # data blocks whose byte length equals a length the reader treats specially (276-byte header, 12-byte TIF marker, ...)
+    mb = magic_block_cases(rng, ctx.n(30, 400))
+    cases += mb
+    for ps in mb:
+        ctx.nontriv(('magic_block', len(ps[0]['names']), ps[0]['fib'], ps[0]['n']))
     # many log passes: the reader numbers them with decimal strings, so cross 10 / 11 / 20 / 21 / 100 / 101 passes
     # (every pass differs from the others at least in its 72-byte description, frame count and data; the oracle is positional)
     many = [11, 12, 21, 10, 13, 20, 30, rng.randint(5, 30), rng.randint(5, 30), rng.randint(22, 30), 101, rng.randint(100, 130)]
@@ -503,7 +567,7 @@ def stream_files(ctx, R):
             ctx.corr('encoder', None, '', '')
         out, fas = impl_read(R, data)
         ctx.corr('files', case_of(ps, data), out, m)
-        oracle_file(ctx, R, ps, data, 'full', fas)
+        oracle_file(ctx, R, ps, data, 'full', fas, out=out)
         if is_nontriv(ps):
             ctx.nontriv(nontriv_key(ps))
     ctx.sample({'op': 'file', 'passes': [{'names': [n.decode() for n in p['names']], 'frames': p['n'], 'frames_per_block': p['fib']}
@@ -519,7 +583,7 @@ def stream_files(ctx, R):
     for (ps, data, v), m in zip(var, dec):
         out, fas = impl_read(R, data)
         ctx.corr('files_endings', case_of(ps, data, v), out, m)
-        oracle_file(ctx, R, ps, data, v, fas)
+        oracle_file(ctx, R, ps, data, v, fas, out=out)
     ctx.count('file_cases', len(cases) + len(var))
     return cases, files
 
@@ -535,7 +599,7 @@ def stream_negative_spacing(ctx, R):
     for ps, data, m in zip(cases, files, dec):
         out, fas = impl_read(R, data)
         ctx.corr('files_negative_spacing', case_of(ps, data), out, m)
-        oracle_file(ctx, R, ps, data, 'full', fas)
+        oracle_file(ctx, R, ps, data, 'full', fas, out=out)
 
 
 def damage(rng, ps):
@@ -858,7 +922,8 @@ def search(ctx):
     _quiet()
     try:
         rng = ctx.rng
-        cases = [[gen_pass(rng, rng.choice(['tiny', 'small'])) for _ in range(rng.choice([1, 2]))] for _ in range(400)]
+        cases = magic_block_cases(rng, 200)
+        cases += [[gen_pass(rng, rng.choice(['tiny', 'small'])) for _ in range(rng.choice([1, 2]))] for _ in range(400)]
         for ps in cases:
             data = layout(file_records(ps))
             oracle_file(ctx, R, ps, data, 'full')
